@@ -3,8 +3,10 @@ import archdispatch
 import archlib
 
 ID = "C02"
-PROOF_MODULES = ["PyribsProofs.C02"]
+from genf import translate  # noqa: E402,F401  (regenerates lean/PyribsGen/Formulas.lean from the tree under check)
+PROOF_MODULES = ["PyribsProofs.C02", "PyribsGen.Formulas", "PyribsProofs.GenF"]
 THEOREMS = [
+    "Pyribs.GenFProofs.value_matches",
     "Pyribs.C02.judge_spec",
     "Pyribs.C02.judge_spec_single",
     "Pyribs.C02.status_empty",
